@@ -30,7 +30,7 @@ from .choices import Choices
 
 PROP = "C19"
 BATCH = 40
-SHRINK_EVALS = 300
+SHRINK_EVALS = 500
 JOB_TIMEOUT_S = 1800
 VD_QUICK = ["float64", "int64", "bool", "datetime64[ns]"]
 VD_THOROUGH = VD_QUICK + ["float32", "timedelta64[ns]"]
@@ -321,7 +321,10 @@ def run_one(scen: Choices, sched: Choices, cls, cfg):
     max_steps = 5 if tier == "quick" else 8
     nsteps = 1 + scen.small(max_steps - 1)
     steps = []
-    for _ in range(nsteps):
+    while len(steps) < max_steps:
+        b_ = scen.begin()
+        if not scen.forced(1 if len(steps) < nsteps else 0):  # "one more step?"
+            break
         kind = scen.weighted([(10, "op"), (3, "fn"), (2, "failing_call")])
         if kind == "op":
             fam = scen.weighted([(4, "basic"), (2, "composite"), (3, "rowwise"), (3, "select")])
@@ -332,6 +335,10 @@ def run_one(scen: Choices, sched: Choices, cls, cfg):
             step = _failing(scen)
         step["scribble"] = bool(scen.draw(2))
         steps.append(step)
+        scen.end(b_)
+    if not steps:
+        steps = [{"kind": "op", "op": ops.gen_op(Choices(replay=[]), "basic", ds), "scribble": False}]
+    nsteps = len(steps)
     fault = None
     fault_step = None
     if cfg.get("fault_mode"):
